@@ -12,6 +12,10 @@ type Unsubscribe func()
 type subscriber[T any] struct {
 	id uint64
 	fn EventFn[T]
+	// Serialises the calls of fn. The notifications of two changes in a row run in goroutines of their own and
+	// may overtake each other; a listener that looks up the current value and then applies it must not be
+	// interleaved with itself, or the older value can be the one that is applied last and stays.
+	running *sync.Mutex
 }
 
 // The subscriber list lives behind a pointer, so that an Event (and the structs that embed one by
@@ -50,7 +54,7 @@ func (e *Event[T]) Subscribe(fn EventFn[T]) Unsubscribe {
 	st.mu.Lock()
 	id := st.nextID
 	st.nextID++
-	st.subscribers = append(st.subscribers, subscriber[T]{id: id, fn: fn})
+	st.subscribers = append(st.subscribers, subscriber[T]{id: id, fn: fn, running: new(sync.Mutex)})
 	st.mu.Unlock()
 
 	// Subscribers are identified by an id rather than by their position, which shifts whenever an
@@ -75,6 +79,10 @@ func (e *Event[T]) Fire(data T) {
 	st.mu.Unlock()
 
 	for _, subscriber := range subscribers {
-		go subscriber.fn(data)
+		go func() {
+			subscriber.running.Lock()
+			defer subscriber.running.Unlock()
+			subscriber.fn(data)
+		}()
 	}
 }
